@@ -364,6 +364,11 @@ func mutatorsFor(typ, chain string, fx *fixture) []mutator {
 				}
 				x.Members = append(x.Members, m, &mtypes.ExternalSigner{Power: m.Power, ExternalAddress: m.ExternalAddress})
 			}},
+			{"Members.powerless", func(e mtypes.ExternalEvent, s int) {
+				// one more member, with power 0 (what normalisation gives a validator below 2^-32 of the stake)
+				x := e.(*mtypes.SignerSetTxExecutedEvent)
+				x.Members = append(x.Members, &mtypes.ExternalSigner{Power: 0, ExternalAddress: sim.ExtUser(5 + s%3).Hex()})
+			}},
 		}
 	}
 	return nil
